@@ -225,7 +225,7 @@ impl Stitch {
                         trace!(?band_id, "band is closed; stitched iteration complete");
                         State::Done
                     } else if let Some(prev_band_id) =
-                        previous_existing_band(&self.archive, *band_id).await
+                        previous_existing_band(&self.archive, *band_id, &self.monitor).await
                     {
                         trace!(?band_id, ?prev_band_id, "moving back to previous band");
                         State::BeforeBand(prev_band_id)
@@ -242,7 +242,11 @@ impl Stitch {
     }
 }
 
-async fn previous_existing_band(archive: &Archive, mut band_id: BandId) -> Option<BandId> {
+async fn previous_existing_band(
+    archive: &Archive,
+    mut band_id: BandId,
+    monitor: &Arc<dyn Monitor>,
+) -> Option<BandId> {
     loop {
         // TODO: It might be faster to list the present bands, maybe when
         // constructing Stitch, and calculate from that, rather than walking
@@ -251,6 +255,20 @@ async fn previous_existing_band(archive: &Archive, mut band_id: BandId) -> Optio
             band_id = prev_band_id;
             if archive.band_exists(band_id).await.unwrap_or(false) {
                 return Some(band_id);
+            }
+            // A band directory without a head is what a backup killed while creating its
+            // band leaves, and holds nothing. But one that has index hunks has lost its head,
+            // and the entries that would have been taken from it are lost with it: say so
+            // rather than silently continuing with older versions of those files.
+            let index = crate::index::IndexRead::open(
+                archive.transport().chdir(&band_id.to_string()).chdir("i"),
+            );
+            if index
+                .hunks_available()
+                .await
+                .is_ok_and(|hunks| !hunks.is_empty())
+            {
+                monitor.error(Error::BandHeadMissing { band_id });
             }
         } else {
             return None;
